@@ -16,6 +16,7 @@ import GoZero.C03.ScriptRun
 import GoZero.C03.Props
 import GoZero.C03.ProofsPeriodW
 import GoZero.C03.ProofsTokenKeys
+import GoZero.C03.RescueIval
 namespace GoZero.C03.PropsApi
 open GoZero.C03 Spec
 
@@ -415,5 +416,95 @@ theorem token_api_keys_refine_own_bucket (rate burst : Nat) (key : String) (hr :
 example : (Sys.runK (newTokenCfg 1 2 "a") (Sys.init (newTokenCfg 1 2 "a"))
       [.own (.allow 0 100000000000 2), .other (newTokenCfg 5 3 "ab") 100 3, .own (.allow 1 100000000000 1),
        .other (newTokenCfg 5 3 "") 100 1, .own (.allow 0 101000000000 1)]).map (·.ok) = [true, false, true] := by decide
+
+/-! ## round 5c: a reply lost after the script ran (deadline / timeout during the call) -/
+
+/-- operations of a period run in which some takes lose their reply after the script ran -/
+inductive POpL where
+  | op (o : POp)
+  | lost (key : String)
+  deriving Repr, DecidableEq
+
+/-- the same run with every reply delivered -/
+def POpL.abs : POpL → POp
+  | .op o => o
+  | .lost k => .take k
+
+def _root_.GoZero.C03.PSys.stepL (quota period : Nat) (s : PSys) : POpL → PSys × Option (Code × PErr)
+  | .op o => s.step quota period o
+  | .lost k => let r := s.takeLost quota period k; (r.1, some r.2)
+
+def _root_.GoZero.C03.PSys.runL (quota period : Nat) : PSys → List POpL → List (Option (Code × PErr))
+  | _, [] => []
+  | s, o :: ops => (s.stepL quota period o).2 :: PSys.runL quota period (s.stepL quota period o).1 ops
+
+/-- what the caller of a lost take sees instead of the reply -/
+def hideLost : List POpL → List (Option (Code × PErr)) → List (Option (Code × PErr))
+  | .lost _ :: ops, _ :: rs => some (Code.unknown, PErr.store) :: hideLost ops rs
+  | _ :: ops, r :: rs => r :: hideLost ops rs
+  | _, _ => []
+
+theorem takeLost_state (quota period : Nat) (s : PSys) (k : String) :
+    (s.takeLost quota period k).1 = (s.take quota period k).1 ∧
+    (s.takeLost quota period k).2 = (Code.unknown, PErr.store) := by
+  unfold PSys.takeLost PSys.take
+  cases s.up <;> simp [takeResult]
+
+/-- **PeriodLimit, reply lost after the script ran: a permit may be consumed without a grant, never a grant without
+consumption.**  For every quota, period and EVERY operation sequence in which any takes lose their reply: the caller of a
+lost take gets `(Unknown, err)` — never a grant —, and every other reply is exactly the reply of the run in which all
+replies were delivered (the lost take counted as a take: `period_refines_spec` applies to that run, so the answered takes
+of a life are granted at most `quota − lost` times). -/
+theorem lost_takes_count_and_never_grant (quota period : Nat) : ∀ (ops : List POpL) (s : PSys),
+    PSys.runL quota period s ops = hideLost ops (PSys.run quota period s (ops.map POpL.abs)) := by
+  intro ops
+  induction ops with
+  | nil => intro s; rfl
+  | cons o rest ih =>
+    intro s
+    cases o with
+    | op o =>
+      simp only [PSys.runL, PSys.stepL, List.map_cons, POpL.abs, PSys.run, hideLost]
+      rw [ih]
+    | lost k =>
+      obtain ⟨h1, h2⟩ := takeLost_state quota period s k
+      simp only [PSys.runL, PSys.stepL, List.map_cons, POpL.abs, PSys.run, PSys.step, hideLost, h1, h2]
+      rw [ih]
+
+example : PSys.runL 2 5 PSys.init [.op (.take "a"), .lost "a", .op (.take "a"), .op (.ft 5000), .op (.take "a")]
+    = [some (.allowed, .nil), some (.unknown, .store), some (.overQuota, .nil), none, some (.allowed, .nil)] := by decide
+
+/-- **TokenLimiter: never a grant without consumption** — a request the store path grants has taken its `n` tokens out
+of the shared bucket (what the script stored is `filled − n`, and `n ≤ filled`). -/
+theorem store_grant_consumes (c : TCfg) (hk : c.k1 ≠ c.k2) (s : Sys) (i ns n : Nat)
+    (hr : (s.reserveN true c i ns n).2.route = .store) (ho : (s.reserveN true c i ns n).2.ok = true) :
+    n ≤ filledTokens c s.store (ns / nsPerSec) ∧
+    ((s.reserveN true c i ns n).1.store.find c.k1).map (·.val) = some (filledTokens c s.store (ns / nsPerSec) - n) := by
+  rcases reserveN_cases c hk s i ns n with ⟨h, _⟩ | ⟨_, hok, _, _, _, hf1, _⟩
+  · rw [h] at hr; cases hr
+  · rw [hok] at ho
+    have hle : n ≤ filledTokens c s.store (ns / nsPerSec) := by simpa using ho
+    refine ⟨hle, ?_⟩
+    rw [hf1]; simp [hle]
+
+/-- **TokenLimiter, reply lost after the script ran: a token may be consumed without a grant.**  Instance on the store
+path, store reachable: the shared bucket is charged exactly as by the answered request (so the ONE-bucket refinement goes
+on with the lost request counted); with a context error (`deadline`) the caller is refused and nothing else changes; with
+any other error (`timeout`) the request is handed — with its size `n` at its time — to the local limiter after
+`startMonitor`, like every store failure. -/
+theorem lost_reply_charges_bucket (c : TCfg) (s : Sys) (i ns n : Nat) (k : LostKind)
+    (ha : (s.insts i).alive = true) (hu : s.up = true) :
+    (s.reserveLost c i ns n k).1.store = (s.reserveN true c i ns n).1.store ∧
+    (k = .deadline → (s.reserveLost c i ns n k).2.ok = false ∧ (s.reserveLost c i ns n k).1.insts = s.insts) ∧
+    (k = .timeout → s.reserveLost c i ns n k =
+      ({ s with store := (s.reserveN true c i ns n).1.store }).rescuePath c i (s.insts i).startMonitor ns n) := by
+  have hp := ttlFixed_pos c.rate c.burst
+  have hne : ¬ (ttlFixed c.rate c.burst = 0) := by omega
+  unfold Sys.reserveLost Sys.reserveN
+  simp only [ha, hu, Bool.not_true, Bool.or_self, Bool.false_eq_true, if_false, tokenScript, Store.setex, ttlOf,
+    if_true, hne]
+  cases k with
+  | deadline => exact ⟨rfl, fun _ => ⟨rfl, rfl⟩, fun h => LostKind.noConfusion h⟩
+  | timeout => exact ⟨by simp [Sys.rescuePath], fun h => LostKind.noConfusion h, fun _ => rfl⟩
 
 end GoZero.C03.PropsApi
